@@ -18,6 +18,12 @@ LEVEL_TEXT = ("Theorems (Coq, all argument values, sizes and table lengths): for
               "NaN rejected; known method name; p in [0,1]; mean >= 0; parameter > 0; n <= 170; digits <= 7; equal list lengths; ...) and an accepted request performs "
               "no out-of-bounds access in the index arithmetic that follows (Locate's result is <= N-2; the block constructor's offsets stay inside the result; "
               "Sub_List's iterators; Integrate's / Local_Minimum's knot scans; KDE pseudo-data indices 3i < N; inner operator[] guards never fire). "
+              "Requests that are not the first one on an object: every history of Resize / Assign / Delete_Row / Delete_Column / copy / assignment / += / M = M + B / M = M * B / "
+              "M = M.Transpose() keeps the representation invariant 'components holds Rows() rows of Columns() entries' that the shape guards rely on, each step exits exactly outside "
+              "its domain and reads nothing out of bounds, and afterwards every guard is the stateless one on (Rows(), Columns()) (same for Vector); a sequence of Factorial / "
+              "Binomial_Coefficient requests returns iff each one is meaningful, for every content of the memo table; a sequence of requests on one Interpolation object exits iff one of them does. "
+              "Unit arguments: Interpolation(x, f, x_dim, f_dim) with x_dim <= 0 leaves the table as it is, with x_dim > 0 the converted table is strictly increasing again, `domain` is its "
+              "first and last abscissa and the 1 % rule is the one of the converted table (over R). "
               "Index/shape theorems are over Z and hold for the unsigned 32-bit arithmetic of the code (wrap-around explicit); order-only theorems are over an abstract "
               "number type with OrdLaws (valid for doubles without NaN, rounding included); the 1 % tolerance, p in [0,1] and the sign-of-product test are over R. "
               "NOT theorems: that the process really exits with a non-empty diagnostic and a failure status and that the real code performs no out-of-bounds access - this is the "
@@ -33,7 +39,9 @@ LEVEL_NOTE = ("Coq 8.16.1 kernel; guard model hand-written from the current sour
 TOL = (0.0, 0.0)
 TRUSTED = ["fork/exit-status/diagnostic capture of harness/common.hpp; AddressSanitizer, UBSan and _GLIBCXX_ASSERTIONS as detectors of out-of-bounds accesses",
            "std::is_sorted / std::upper_bound / std::sort / std::unique are modelled by their specifications"]
-ASSUMPTIONS = ["NaN parameters are outside the quantifier (only Find_Root's end values and Locate's argument are tested for NaN); Inv_Erf(1.0) returns 10 by design",
+ASSUMPTIONS = ["Matrix::Resize / Assign with a negative int size (std::length_error from std::vector::resize) and unit arguments that over- or underflow the table into "
+               "one that is not strictly increasing any more are outside the quantifier (the former is not generated; the latter is generated in the thorough tier and compared with the model, without an S4 claim)",
+               "NaN parameters are outside the quantifier (only Find_Root's end values and Locate's argument are tested for NaN); Inv_Erf(1.0) returns 10 by design",
                "sizes, counts and indices are below 2^31 except the index arguments themselves (which range over all of unsigned int)"]
 SAN = ["-fsanitize=address,undefined", "-fno-sanitize-recover=all", "-fno-omit-frame-pointer", "-D_GLIBCXX_ASSERTIONS"]
 HARNESS_ENV = {"ASAN_OPTIONS": "exitcode=99:detect_leaks=0:abort_on_error=0", "UBSAN_OPTIONS": "halt_on_error=1:exitcode=98:print_stacktrace=0"}
